@@ -5,8 +5,10 @@
    stream, counter of the stateful differential update), the point-wise pdf / the domain test / the user
    update given as the finite tables recorded in the log, and compares bit-exactly:
    the sequence of callback invocations (rng draws of the sampler, differential update, independent update,
-   domain test, pdf batches with their contents), and after every run the chain state, the cached pdf values,
-   the ready flag, the history, the pdf history, the acceptance counter and the stream position.
+   domain test, pdf batches with their contents), and after EVERY operation of the history (runs and the edits
+   setState x2, setPDFvalues x2, clearPDFvalues, clearHistory, expandHistory, replayed through the extracted
+   [apply_op]) the chain state, the cached pdf values, the ready flag, the history, the
+   pdf history, the acceptance counter and the stream position.
    Prints one line per case: ok / MISMATCH / skip. *)
 open Common
 
@@ -35,7 +37,8 @@ let item_str = function
   | II (a, b) -> "I " ^ hexl a ^ " = " ^ string_of_bool b
   | IP l -> "PDF " ^ String.concat " | " (List.map (fun (x, v) -> hexl x ^ " = " ^ hex v) l)
 
-type runlog = { nb : int; nc : int; items : item list; endrun : string list option }
+(* one operation of the history: "op <kind> <args>", the callbacks it made, the F lines of a callback setState, the dump *)
+type oplog = { kind : string; args : string list; items : item list; fmap : (float list * float list) list; endop : string list option }
 
 (* sections "key: v v v" of the params line *)
 let sections (toks : string list) : (string * string list) list =
@@ -52,7 +55,7 @@ let rec chunks d l = if l = [] then [] else
 (* table keys: bit patterns, all NaNs identified (the log prints them as nan / -nan without payload) *)
 let key (a : float list) = List.map (fun x -> if x <> x then 0x7ff8000000000000L else bits x) a
 
-let process id (params : string list) (pre : item list) (runs : runlog list) (crashed : bool) =
+let process id (params : string list) (ops : oplog list) (ptable : (float list * float) list) (crashed : bool) =
   match params with
   | "dream" :: form :: ns :: ds :: rest ->
     let n = int_of_string ns and d = int_of_string ds in
@@ -61,17 +64,17 @@ let process id (params : string list) (pre : item list) (runs : runlog list) (cr
     let fl k = List.map float_of_tok (get k) in
     let updk = List.hd (get "upd:") and updc = List.map float_of_tok (List.tl (get "upd:")) in
     let diffk = List.hd (get "diff:") and diffc = Array.of_list (List.map float_of_tok (List.tl (get "diff:"))) in
-    let preinit = get "pre:" = ["1"] in
     let x0 = fl "state:" in
     let stream = Array.of_list (let s = fl "rng:" in if s = [] then [0.5] else s) in
     (* tables from the whole log of the case *)
     let tp = Hashtbl.create 97 and ti = Hashtbl.create 97 and tu = Hashtbl.create 97 in
+    List.iter (fun (x, v) -> Hashtbl.replace tp (key x) v) ptable;
     let feed = List.iter (function
         | IP l -> List.iter (fun (x, v) -> Hashtbl.replace tp (key x) v) l
         | II (x, b) -> Hashtbl.replace ti (key x) b
         | IU (a, b) -> Hashtbl.replace tu (key a) b
         | _ -> ()) in
-    feed pre; List.iter (fun r -> feed r.items) runs;
+    List.iter (fun r -> feed r.items) ops;
     let misses = ref 0 in
     let pdf x = match Hashtbl.find_opt tp (key x) with Some v -> v | None -> incr misses; nan in
     let inside x = match Hashtbl.find_opt ti (key x) with Some b -> b | None -> incr misses; false in
@@ -96,9 +99,9 @@ let process id (params : string list) (pre : item list) (runs : runlog list) (cr
       if x >= 0.0 && x < 4e18 then z_of_int (int_of_float x) else (incr badconv; Dream.Z0) in
     let ofnat k = float_of_int (int_of_nat k) in
     let logform = (form = "log") in
-    let run nb nc st w =
-      Dream.run ( +. ) ( -. ) ( *. ) ( /. ) log ofnat trunc (fun a b -> a > b) (fun a b -> a >= b) is_zero
-        logform true pdf inside rnd diff upd (z_of_int nb) (z_of_int nc) st w in
+    let apply o st w =
+      Dream.apply_op ( +. ) ( -. ) ( *. ) ( /. ) log ofnat trunc (fun a b -> a > b) (fun a b -> a >= b) is_zero
+        logform true pdf inside rnd diff upd o st w in
     let conv evs = List.filter_map (function
         | Dream.EvRnd r -> Some (IR r) | Dream.EvDiff v -> Some (ID v) | Dream.EvGet _ -> None
         | Dream.EvUpd (a, b) -> if lib then None else Some (IU (a, b))
@@ -117,30 +120,41 @@ let process id (params : string list) (pre : item list) (runs : runlog list) (cr
     let st = ref { Dream.chains = chunks d x0; pdfv = []; pdf_ready = false; hist = []; pdfh = []; acc = Dream.O } in
     let w = ref { pos = 0; dseq = 0 } in
     ignore n;
-    if preinit then begin
-      let (st1, e0) = Dream.init_pdf pdf !st in
-      cmp_items "preinit" (conv e0) pre; st := st1
-    end;
-    let nev = ref 0 and nout = ref 0 and ndraw = ref 0 and nruns = ref 0 in
+    let nev = ref 0 and nout = ref 0 and ndraw = ref 0 and nops = ref 0 and nedits = ref 0 in
     List.iteri (fun ri r ->
         if !probs = [] then begin
-          match r.endrun with
-          | None -> if not crashed then add (Printf.sprintf "run %d has no endrun line" ri)
+          match r.endop with
+          | None -> if not crashed then add (Printf.sprintf "op %d (%s) has no endop line" ri r.kind)
           | Some er ->
-            let ((st1, w1), evs) = run r.nb r.nc !st !w in
+            let fa = List.map float_of_tok in
+            let o = match r.kind, r.args with
+              | "run", nb :: nc :: _ -> Dream.OpRun (z_of_int (int_of_string nb), z_of_int (int_of_string nc))
+              | "setv", a -> Dream.OpSetState (chunks d (fa a))
+              | "setf", _ -> Dream.OpSetStateFn (fun i x ->   (* i-th invocation of the callback: the i-th logged "F old = new" *)
+                  match List.nth_opt r.fmap (int_of_nat i) with
+                  | Some (a, b) when same_list a x -> b
+                  | _ -> incr misses; x)
+              | "pdfv", a -> Dream.OpSetPdf (fa a)
+              | "pdff", _ -> Dream.OpSetPdfFn
+              | "clearpdf", _ -> Dream.OpClearPdf
+              | "clearhist", _ -> Dream.OpClearHist
+              | "expand", k :: _ -> Dream.OpExpand (z_of_int (int_of_string k))
+              | _ -> failwith ("unknown op " ^ r.kind) in
+            let ((st1, w1), evs) = apply o !st !w in
             let mi = conv evs in
-            cmp_items (Printf.sprintf "run%d" ri) mi r.items;
-            nev := !nev + List.length mi; incr nruns;
+            let tag = Printf.sprintf "op%d(%s)" ri r.kind in
+            cmp_items tag mi r.items;
+            nev := !nev + List.length mi; incr nops; if r.kind <> "run" then incr nedits;
             List.iter (function II (_, false) -> incr nout | IR _ -> incr ndraw | _ -> ()) mi;
             let s = sections er in
             let g k = try List.assoc k s with Not_found -> [] in
             let gf k = List.map float_of_tok (g k) in
-            let chk what ok = if not ok then add (Printf.sprintf "run%d %s" ri what) in
+            let chk what ok = if not ok then add (Printf.sprintf "%s %s" tag what) in
             chk (Printf.sprintf "state model=[%s] impl=[%s]" (hexl (List.concat st1.Dream.chains)) (String.concat " " (g "state:")))
               (same_list (List.concat st1.Dream.chains) (gf "state:"));
+            chk "pdf-ready" ((if st1.Dream.pdf_ready then ["1"] else ["0"]) = g "ready:");
             chk (Printf.sprintf "pdf-values model=[%s] impl=[%s]" (hexl st1.Dream.pdfv) (String.concat " " (g "pdfv:")))
               (same_list st1.Dream.pdfv (gf "pdfv:"));
-            chk "pdf-ready" ((if st1.Dream.pdf_ready then ["1"] else ["0"]) = g "ready:");
             chk (Printf.sprintf "accepted model=%d impl=%s" (int_of_nat st1.Dream.acc) (String.concat " " (g "accepted:")))
               ([string_of_int (int_of_nat st1.Dream.acc)] = g "accepted:");
             chk (Printf.sprintf "stream-position model=%d impl=%s" w1.pos (String.concat " " (g "rngpos:")))
@@ -149,47 +163,49 @@ let process id (params : string list) (pre : item list) (runs : runlog list) (cr
               (same_list (List.concat st1.Dream.hist) (gf "hist:"));
             chk "pdf-history" (same_list st1.Dream.pdfh (gf "pdfh:"));
             st := st1; w := w1
-        end) runs;
+        end) ops;
     if !misses > 0 then add (Printf.sprintf "table-misses=%d" !misses);
     if !badconv > 0 then add (Printf.sprintf "size_t-conversion-of-out-of-range-double=%d" !badconv);
     if !probs <> [] then Printf.printf "MISMATCH %s %s\n" id (String.concat "; " (List.rev !probs))
-    else if crashed then Printf.printf "skip %s crashed runs_ok=%d\n" id !nruns
-    else Printf.printf "ok %s runs=%d events=%d accepted=%d outside=%d draws=%d hist=%d\n" id !nruns !nev
+    else if crashed then Printf.printf "skip %s crashed ops_ok=%d\n" id !nops
+    else Printf.printf "ok %s runs=%d edits=%d events=%d accepted=%d outside=%d draws=%d hist=%d\n" id (!nops - !nedits) !nedits !nev
         (int_of_nat !st.Dream.acc) !nout !ndraw (List.length !st.Dream.hist)
   | _ -> Printf.printf "skip %s\n" id
 
 let () =
   let lines = read_lines Sys.argv.(1) in
-  let id = ref "" and params = ref [] and pre = ref [] and runs = ref [] and crashed = ref false in
-  let cur_items = ref [] and cur_run = ref None and batch = ref None in
-  (* batch: Some (remaining, acc) while reading the P lines of a PDF batch *)
+  let id = ref "" and params = ref [] and ops = ref [] and crashed = ref false and ptable = ref [] in
+  let cur_items = ref [] and cur_f = ref [] and cur_op = ref None and batch = ref None in
   let push it = cur_items := it :: !cur_items in
-  let close_run er = (match !cur_run with
-      | Some (nb, nc) -> runs := { nb; nc; items = List.rev !cur_items; endrun = er } :: !runs
-      | None -> if !runs = [] then pre := List.rev !cur_items);
-    cur_items := []; cur_run := None in
+  let close_op er = (match !cur_op with
+      | Some (kind, args) -> ops := { kind; args; items = List.rev !cur_items; fmap = List.rev !cur_f; endop = er } :: !ops
+      | None -> ());
+    cur_items := []; cur_f := []; cur_op := None in
   let flush_batch () = match !batch with
-    | Some (_, acc) -> push (IP (List.rev acc)); batch := None
+    | Some acc -> push (IP (List.rev acc)); batch := None
     | None -> () in
   let fl = List.map float_of_tok in
   List.iter (fun l ->
       match split_ws l with
-      | "case" :: i :: _ -> id := i; params := []; pre := []; runs := []; crashed := false; cur_items := []; cur_run := None; batch := None
+      | "case" :: i :: _ -> id := i; params := []; ops := []; crashed := false; ptable := [];
+        cur_items := []; cur_f := []; cur_op := None; batch := None
       | "params" :: r -> params := r
-      | "run" :: nb :: nc :: _ -> flush_batch (); close_run None; cur_run := Some (int_of_string nb, int_of_string nc)
+      | "op" :: kind :: args -> flush_batch (); close_op None; cur_op := Some (kind, args)
       | "R" :: v :: _ -> flush_batch (); push (IR (float_of_tok v))
       | "D" :: v :: _ -> flush_batch (); push (ID (float_of_tok v))
       | "U" :: r -> flush_batch (); let (a, b) = split_at "=" r in push (IU (fl a, fl b))
       | "I" :: r -> flush_batch (); let (a, b) = split_at "=" r in push (II (fl a, (match fl b with v :: _ -> v <> 0.0 | [] -> false)))
-      | "PDF" :: _ -> flush_batch (); batch := Some (0, [])
+      | "F" :: r -> let (a, b) = split_at "=" r in cur_f := (fl a, fl b) :: !cur_f
+      | "PX" :: r -> let (a, b) = split_at "=" r in ptable := (fl a, (match fl b with v :: _ -> v | [] -> nan)) :: !ptable
+      | "PDF" :: _ -> flush_batch (); batch := Some []
       | "P" :: r -> let (a, b) = split_at "=" r in
         (match !batch with
-         | Some (k, acc) -> batch := Some (k, (fl a, (match fl b with v :: _ -> v | [] -> nan)) :: acc)
+         | Some acc -> batch := Some ((fl a, (match fl b with v :: _ -> v | [] -> nan)) :: acc)
          | None -> ())
-      | "endrun" :: r -> flush_batch (); close_run (Some r)
+      | "endop" :: r -> flush_batch (); close_op (Some r)
       | "crash" :: _ -> crashed := true
-      | "exception" :: _ -> crashed := true
-      | "end" :: _ -> flush_batch (); close_run None;
-        (try process !id !params !pre (List.rev !runs) !crashed
+      | "exception" :: _ -> ()   (* a rejected edit: the dump that follows must show an unchanged object *)
+      | "end" :: _ -> flush_batch (); close_op None;
+        (try process !id !params (List.rev !ops) !ptable !crashed
          with e -> Printf.printf "MISMATCH %s runner-exception %s\n" !id (Printexc.to_string e))
       | _ -> ()) lines
